@@ -125,6 +125,7 @@ def rename_case(draw, profile):
         c = next(c for c in p["classes"] if c["name"] == G["cls"])
         if any(pn in genclass._bare_vars(f["init"]) for f in c["fields"] if f.get("init") and not f.get("static")):
             hot.append((G, pn))
+    special = True
     if hot and draw(st.integers(0, 3)) > 0:
         F, v = draw(st.sampled_from(hot))
         mine = declared_names(F)
@@ -132,6 +133,7 @@ def rename_case(draw, profile):
         F, v = draw(st.sampled_from(shadowing))
         mine = declared_names(F)
     else:
+        special = False
         F = draw(st.sampled_from(Fs))
         mine = declared_names(F)
         v = draw(st.sampled_from(sorted(set(mine))))
@@ -150,7 +152,7 @@ def rename_case(draw, profile):
                     written.add(s_["e"]["name"])
             genprog.walk_stmts(m["body"], fs, lambda e: None)
     force_hot = False
-    if written and draw(st.booleans()):
+    if written and not special and draw(st.booleans()):
         # rename an int local of a plain function (main first: it is on the stack during every call), to such a field's name
         plain = [G for G in Fs if not G["cls"] and any(s_["t"] == "int" for s_ in _decls(G))]
         mains = [G for G in plain if G["name"] == "main"]
